@@ -27,7 +27,7 @@ RULE = ("cases: (permutation, format, column variant); executions: one call per 
         "(case, function, selector, form) with a non-identity permutation and at least one fit kept")
 ASSUMPTIONS = ["package self-consistent: convolved files and parameter table share the row order", "model names unique"]
 REQUIRED_CLASSES = ['keeps-none', 'keeps-one', 'keeps-some', 'keeps-all', 'form-file', 'form-object', 'form-list', 'additional-1', 'additional-2', 'nan-column', 'four-columns',
-                    'write_parameters', 'write_parameter_ranges', 'extract_parameters', 'filter_table', 'plot-params-table', 'permuted', 'parameters-gz', 'parameter-file-rewritten']
+                    'write_parameters', 'write_parameter_ranges', 'extract_parameters', 'filter_table', 'plot-params-table', 'permuted', 'parameters-gz', 'parameter-file-rewritten', 'model-name-column-not-first', 'extract-explicit-parameter-list', 'flag-changed-in-place-between-listings', 'second-package-same-names']
 TIMEOUT = {'quick': 600, 'thorough': 3000}
 
 
@@ -35,7 +35,7 @@ def setup(tier, seed):
     n = 4 if tier == 'quick' else 5
     out = []
     for i, p in enumerate(itertools.permutations(range(n))):
-        out.append({'n': n, 'perm': list(p), 'fmt': 'v1' if i % 2 == 0 else 'v2', 'n_cols': [2, 1, 4][i % 3], 'nan': (i % 4 == 1), 'plots': (i in (5, 17) if tier == 'quick' else i % 20 == 5), 'par_gz': (i % 5 == 2), 'text_col': (i % 7 == 3)})
+        out.append({'n': n, 'perm': list(p), 'fmt': 'v1' if i % 2 == 0 else 'v2', 'n_cols': [2, 1, 4][i % 3], 'nan': (i % 4 == 1), 'plots': (i in (5, 17) if tier == 'quick' else i % 20 == 5), 'par_gz': (i % 5 == 2), 'text_col': (i % 7 == 3), 'name_pos': [0, 1, 9][i % 3]})
     return {'tier': tier, 'seed': seed, 'cases': out}
 
 
@@ -65,7 +65,9 @@ def run_case(ctx, case, rec, d):
     from sedfitter.fit_info import FitInfo
     seed = ctx['seed']
     n, perm = case['n'], case['perm']
-    md, pk = pc.build(d, 'pkg', case['fmt'], n, perm=perm, n_cols=case['n_cols'], nan_col=case['nan'], seed=seed, par_gz=case.get('par_gz', False))
+    md, pk = pc.build(d, 'pkg', case['fmt'], n, perm=perm, n_cols=case['n_cols'], nan_col=case['nan'], seed=seed, par_gz=case.get('par_gz', False), name_pos=case.get('name_pos', 0))
+    if case.get('name_pos'):
+        rec.cls('model-name-column-not-first')
     if case.get('par_gz'):
         rec.cls('parameters-gz')
     fitter = pc.fitter_for(md)
@@ -174,7 +176,10 @@ def run_case(ctx, case, rec, d):
                     rec.cls('write_parameter_ranges')
                     parsed = pc.parse_ranges(out)
                     bad = None
-                    if len(parsed) != len(exp):
+                    want_head = ['chi2', 'av', 'scale'] + [c.lower() for c in colnames] + [c.lower() for c in add_cols]
+                    if pc.ranges_header(out) != want_head:
+                        bad = 'header %r, expected %r' % (pc.ranges_header(out), want_head)
+                    elif len(parsed) != len(exp):
                         bad = '%d lines, expected %d' % (len(parsed), len(exp))
                     else:
                         for ln, e, ref in zip(parsed, exp, refs):
@@ -231,9 +236,12 @@ def run_case(ctx, case, rec, d):
                             bad = 'no file for source %s' % ref.source.name
                             break
                         cols, got = pc.parse_extract(fn)
-                        if cols != ['CHI2', 'AV', 'SC', 'MODEL_NAME'] + colnames:
+                        fcols = pk['file_columns']             # 'all' = the columns in the order of the parameter file
+                        ipos = fcols.index('MODEL_NAME')
+                        if cols != ['CHI2', 'AV', 'SC'] + fcols:
                             bad = 'header %r' % cols
                             break
+                        got = [g[:3] + [g[3 + ipos]] + [x for q, x in enumerate(g[3:]) if q != ipos] for g in got]       # name first, as the comparison below expects
                         if len(got) != len(rows):
                             bad = '%s: %d rows, expected %d' % (ref.source.name, len(got), len(rows))
                             break
@@ -251,6 +259,32 @@ def run_case(ctx, case, rec, d):
                         rec.violation('extract_parameters|%s' % ('params' if 'printed with parameters' in bad else 'rows'), sub, {'problem': bad})
                     elif perm != sorted(perm):
                         rec.nontriv((cfg, 'ex', sel, form))
+                # ---------------- extract_parameters with an explicit list of parameters (reversed file order, MODEL_NAME last)
+                if form == 'file' and len(colnames) >= 2:
+                    plist = list(reversed(colnames)) + ['MODEL_NAME']
+                    arg, refs = fresh(form)
+                    prefix = os.path.join(d, 'exl_%d_' % call[0])
+                    ok = _guard(rec, 'extract_parameters', dict(sub, parameters=plist), lambda: sedfitter.extract_parameters(input=arg, output_prefix=prefix, output_suffix='.txt', select_format=sel, parameters=plist))
+                    rec.trans()
+                    if ok:
+                        rec.cls('extract-explicit-parameter-list')
+                        for e, ref in zip(exp, refs):
+                            if e is None:
+                                continue
+                            cols, got = pc.parse_extract(prefix + ref.source.name + '.txt')
+                            rec.ev()
+                            if cols != ['CHI2', 'AV', 'SC'] + plist:
+                                rec.violation('extract_parameters|header', dict(sub, parameters=plist), {'header': cols})
+                                break
+                            badrow = None
+                            for g, (nm, chi, av, sc) in zip(got, e[1]):
+                                want = [pardict[nm][colnames.index(c)] for c in plist[:-1]]
+                                if g[-1] != nm or not all(pc.close_e(float(a), b) for a, b in zip(g[3:-1], want)):
+                                    badrow = 'row for %s: %r under header %r, expected %r' % (nm, g[3:], plist, want)
+                                    break
+                            if badrow or len(got) != len(e[1]):
+                                rec.violation('extract_parameters|explicit-list', dict(sub, parameters=plist), {'problem': badrow or 'row count'})
+                                break
                 # ---------------- filter_table directly, on the name-sorted table the writers use
                 if form == 'object':
                     ppath = os.path.join(md, 'parameters.fits')
@@ -272,6 +306,40 @@ def run_case(ctx, case, rec, d):
                             if not same:
                                 rec.violation('filter_table|rows', sub, {'got': got, 'expected': want})
     rec.trace()
+    # ---- n_data is the source's count of fitted points NOW: a flag changed in place between two listings is honoured
+    infos_live = pc.fit_all(fitter, srcs)
+    out_a = os.path.join(d, 'live_a.txt')
+    if _guard(rec, 'write_parameters', {'live': 'before'}, lambda: sedfitter.write_parameters(infos_live, out_a, select_format=('E', 1e9))):
+        live = infos_live[0]
+        k_ = [j for j, v in enumerate(live.source.valid) if v in (1, 4)][0]
+        live.source.valid[k_] = 0
+        out_b = os.path.join(d, 'live_b.txt')
+        if _guard(rec, 'write_parameters', {'live': 'after'}, lambda: sedfitter.write_parameters(infos_live, out_b, select_format=('E', 1e9))):
+            _, blocks_b = pc.parse_write_parameters(out_b)
+            want_nd = sum(1 for v in live.source.valid if v in (1, 4))
+            rec.ev()
+            rec.trans(2)
+            rec.cls('flag-changed-in-place-between-listings')
+            if blocks_b[0]['n_data'] != want_nd:
+                rec.violation('write_parameters|stale-n_data', {'live': True}, {'problem': 'n_data listed as %d after a flag was set to 0 in place; the source now has %d fitted points' % (blocks_b[0]['n_data'], want_nd)})
+    # ---- a second package with the SAME model names and other parameter values is fitted in between: listings of the first
+    # package's results must still show the first package's parameters
+    md_b, pk_b = pc.build(d, 'pkg_b', case['fmt'], n, perm=perm[::-1], n_cols=case['n_cols'], nan_col=False, seed=seed + 1)
+    from ref import pkgwriter as _pw
+    _pw.write_parameters(md_b, pk_b['order_names'], {c: np.array([pardict[nm][ci] if pardict[nm][ci] == pardict[nm][ci] else 1.0 for nm in pk_b['order_names']]) * -2.0 - 5.0 for ci, c in enumerate(colnames)})
+    fitter_b = pc.fitter_for(md_b)
+    info_a = pc.fit_all(fitter, srcs)[0]
+    info_b = pc.fit_all(fitter_b, pc.sources(pk_b, seed + 1, n_sources=1))[0]
+    out_ab = os.path.join(d, 'two_packages.txt')
+    if _guard(rec, 'write_parameters', {'two_packages': True}, lambda: sedfitter.write_parameters(info_a, out_ab, select_format=('N', 2))):
+        _, blk = pc.parse_write_parameters(out_ab)
+        rec.ev()
+        rec.trans(3)
+        rec.cls('second-package-same-names')
+        for r in blk[0]['rows']:
+            if not all(pc.close_e(a, b) or (b != b) for a, b in zip(r['pars'], pardict[r['model']])):
+                rec.violation('write_parameters|other-package-parameters', {'two_packages': True}, {'problem': 'the listing of a result from package A shows %r for %s; package A says %r' % (r['pars'], r['model'], pardict[r['model']])})
+                break
     # ---- the package's parameter file is replaced by one with other values (same models): listings must follow the file
     # as it is now, not as it was when the directory was first read
     from ref import pkgwriter
